@@ -8,6 +8,10 @@ ReplaceFunc outside test files, `strings.` / `bytes.` excluded), with the STAGE 
 `replacer_tree_call_sites_match_source` makes the table exact: a new expansion site anywhere in the tree, or an
 existing one moving to another operand / method / function, breaks a C18 proof and asks for a review of the
 composition (does a value that was substituted at one stage reach a scan at another?).
+The phase-1 row is typed and call-following (tools/extract/c18phase1.go): a Replace* call in a helper of autohttps.go
+that (*App).automaticHTTPSPhase1 reaches is listed under that entry point, and an argument that is by data flow the
+value variable of a `range` over a MatchHost is written `elem MatchHost` — moving the loop into a helper or renaming
+its variables leaves the table unchanged.
 `fieldsExpandedAtTwoStages` lists the configured fields that are expanded at two stages today; each expansion
 starts from the CONFIGURED text (no stage stores its result into the field the other reads) — proved and sampled
 for the host matcher (`HostGlue`, httphost) and for the request-time side of the reverse proxy's dial address
@@ -27,7 +31,7 @@ def replacerTreeTable : List (String × String × String × String × String) :=
   ("caddyconfig/httploader.go", "LoadConfig", "ReplaceKnown", "val", "load"),
   ("logging.go", "parseLevel", "ReplaceOrErr", "levelInput", "load"),
   ("modules/caddyhttp/app.go", "Provision", "ReplaceOrErr", "srv.Listen[i]", "load"),
-  ("modules/caddyhttp/autohttps.go", "automaticHTTPSPhase1", "ReplaceOrErr", "d", "load"),
+  ("modules/caddyhttp/autohttps.go", "automaticHTTPSPhase1", "ReplaceOrErr", "elem MatchHost", "load"),
   ("modules/caddyhttp/caddyauth/basicauth.go", "Provision", "ReplaceAll", "acct.Password", "load"),
   ("modules/caddyhttp/caddyauth/basicauth.go", "Provision", "ReplaceAll", "acct.Username", "load"),
   ("modules/caddyhttp/fileserver/browse.go", "serveBrowse", "ReplaceAll", "fsrv.Root", "request"),
@@ -259,7 +263,7 @@ def fieldsExpandedAtTwoStages : List (String × String × String) := [
 
 /-- every listed pair is in the table: both sites exist in the source -/
 theorem fields_expanded_at_two_stages_are_in_the_table :
-    [("modules/caddyhttp/autohttps.go", "d"), ("modules/caddyhttp/matchers.go", "host"),
+    [("modules/caddyhttp/autohttps.go", "elem MatchHost"), ("modules/caddyhttp/matchers.go", "host"),
      ("modules/caddytls/connpolicy.go", "name"), ("modules/caddytls/matchers.go", "name"),
      ("modules/caddyhttp/reverseproxy/healthchecks.go", "upstream.Dial"), ("modules/caddyhttp/reverseproxy/hosts.go", "u.Dial"),
      ("modules/caddypki/ca.go", "ca.RootCommonName"), ("modules/caddypki/adminapi.go", "ca.RootCommonName"),
